@@ -29,3 +29,23 @@ CLAIMED.update({
    text="Runtime half: every arm that propagates a lexer error, an action result or a recovery result returns exactly that payload and reaches the return with no pull/reduce/recovery/definition call (all arms enumerated). Generated half at template level: Result items map Err(e) to User{error:e}; fallible actions propagate with `?`/`return Some(Err(e))`.",
    note="trusted: rustc MIR; rustc's typing of the generated Result plumbing"),
 })
+CLAIMED.update({
+ "C06": dict(level="other", design="§2 C06/C07", technique="static analysis: sibling-agreement rule over the code-emission templates (syntax tree with guard stacks) for the empty-reduction location chain; arm rule for the @L/@R actions",
+   text="Decides one clause: every template computing the start location of a production that pops no symbols takes the lookahead start first, then the top-of-stack end, then the default (both backends), and @L/@R return lookahead/lookbehind. Spans of non-empty symbols and whole-result equality are NOT decided.",
+   note="trusted: syn parse + guard-stack extraction"),
+ "C07": dict(level="other", design="§2 C06/C07", technique="static analysis: sibling-agreement rule between lr1/codegen/parse_table.rs and lr1/codegen/ascent.rs templates (empty-reduction location chain)",
+   text="Decides only the agreement of the two serialisations on the empty-reduction location chain (the place where they compute a value by different code). Equality of results on all inputs is NOT decided.",
+   note="trusted: syn parse + guard-stack extraction"),
+ "C13": dict(level="other", design="§2 C13", technique="static analysis: lint over the arms of `impl Display for SymbolKind` (syntax tree) + cache-key construction sites in macro_expand",
+   text="Decides the distinguishability of expansion cache keys (a necessary condition of 'distinct instantiations never interfere'): no arm renders as a bare identifier, composite renderings contain a non-identifier character, keys come from canonical_form(). Language/value equivalence of expansions is NOT decided.",
+   note="trusted: syn parse"),
+ "C19": dict(level="other", design="§2 C19", technique="static analysis: deviance lint over all code-emission templates (location projections `.0`/`.2` and `*&Location` must be cloned)",
+   text="Decides one clause: generated code demands only Clone of the user's location type (the documented bound). Type inference and compilation of arbitrary grammars are NOT decided.",
+   note="trusted: syn parse of the generator sources"),
+ "C24": dict(level="proof", design="§2 C24", technique="static analysis: rustc field-read facts (who reads the three flags, taint of the values read) + syntax-tree guard analysis of every emission under a flag guard (comment-only / whitespace-only / nothing), Display-impl classification",
+   text="Whole property at template level: every obligation (each flag read, each guarded emission, each then/else pair, each instantiation of the row writer, the report region) is discharged; the flags can only add or remove `//` comments and white space, so the token stream is unchanged.",
+   note="assumes values formatted into comment lines render on one line; trusted: rustc MIR field resolution, syn guard stacks"),
+ "C25": dict(level="other", design="§2 C25", technique="static analysis: lint over name-synthesis sites of the normalisation passes (syntax tree with call chains): invented nonterminal/binding names must carry the grammar prefix or a non-identifier character",
+   text="Decides the clause 'names invented by normalisation cannot be written by a user'. Three known findings (precedence level names, repeat bindings v/e) are genuine defects recorded in known_findings.json. Hygiene of local binders inside emitted bodies is NOT decided.",
+   note="trusted: syn parse + call-chain extraction"),
+})
